@@ -186,7 +186,7 @@ class ContiguousVectorIterator
     friend cntgs::ContiguousVectorIterator<!IsConst, Options, Parameter...>;
 
     SizeType i_{};
-    StoragePointer memory_;
+    StoragePointer memory_{};
     ElementLocatorAndFixedSizes locator_;
 };
 }  // namespace cntgs
